@@ -9,7 +9,7 @@ VERIF = os.path.dirname(os.path.dirname(os.path.abspath(__file__)))
 def run(patch, props, keep=False, tier="quick"):
     patch = os.path.abspath(patch)
     tag = hashlib.sha256(patch.encode()).hexdigest()[:10]
-    scratch = f"/tmp/vs/{tag}"
+    scratch = f"/tmp/vs/{tag}-{os.getpid()}"      # per process: checks of different properties may run side by side
     shutil.rmtree(scratch, ignore_errors=True)
     os.makedirs(scratch)
     for item in ("src", "Cargo.toml", "Cargo.lock", "benches"):
